@@ -6,3 +6,48 @@ From FV Require Import Base RouteMap Netlist Hw Check CheckProofs.
 Theorem C07_checker_sound : forall n names, chk_C07 n names = [] -> C07_on n names.
 Proof. exact chk_C07_sound. Qed.
 Print Assumptions C07_checker_sound.
+
+(* Part 2: over the generator model, for EVERY description that build and compile accept under ID or
+   source routing: the identities of the network interfaces are pairwise distinct, each is IdN u with
+   0 <= u < N, every u in [0, N) is the identity of an interface (dense), the endpoint enumeration
+   has exactly N members whose values are those identities, and N <= 2 ^ id_bits. *)
+From FV Require Import Graph Desc Build Compile Routing Emit ModelBase BuildProofs ModelProofs IdProofs Examples.
+
+Definition C07_model_statement : Prop :=
+  forall d g c, build d = Ok g -> compile d g = Ok c -> d_algo d <> XY ->
+    let N := Z.of_nat (length (c_nis c)) in
+    NoDup (map cn_id (c_nis c)) /\
+    (forall n, In n (c_nis c) -> cn_id n = IdN (cn_uid n) /\ 0 <= cn_uid n < N) /\
+    (forall u, 0 <= u < N -> exists n, In n (c_nis c) /\ cn_id n = IdN u) /\
+    (length (emit_members c) = length (c_nis c) /\
+     forall n, In n (c_nis c) -> In (snake_to_camel (enum_name n), cn_uid n) (emit_members c)) /\
+    (forall sp ri, gen_routing_info sp c = Ok ri -> ri_num_ep ri = N /\ 0 < N <= 2 ^ ri_id_bits ri).
+
+Theorem C07_model_holds : C07_model_statement.
+Proof.
+  intros d g c Hb Hc Hxy N. split; [|split; [|split; [|split]]].
+  - exact (ids_distinct d g c Hb Hc Hxy).
+  - intros n Hn. split; [exact (ids_are_uids d g c Hc Hxy n Hn)|exact (uids_range d g c Hb Hc n Hn)].
+  - intros u Hu. destruct (uids_dense d g c Hb Hc u Hu) as (n & Hn & Hun). exists n. split; [exact Hn|].
+    rewrite (ids_are_uids d g c Hc Hxy n Hn), Hun. reflexivity.
+  - unfold emit_members. split; [rewrite sort_by_length, map_length; reflexivity|].
+    intros n Hn. apply sort_by_In. apply in_map_iff. exists n. auto.
+  - intros sp ri Hr. destruct (id_bits_cover sp c ri Hr) as (H1 & H2). unfold N. rewrite <- H1. auto.
+Qed.
+Print Assumptions C07_model_holds.
+
+(* Part 3, XY routing: every interface and router coordinate, after the global offset, lies inside the
+   emitted coordinate field widths -- for every compiled network and oracle. *)
+Theorem C07_model_xy : forall sp c ri xb yb ab ox oy,
+  gen_routing_info sp c = Ok ri -> ri_xy ri = Some (xb, (yb, (ab, (ox, oy)))) ->
+  (forall n, In n (c_nis c) -> exists x y p, cn_id n = IdXY x y p /\ 0 <= x - ox < 2 ^ xb /\ 0 <= y - oy < 2 ^ yb) /\
+  (forall r, In r (c_rts c) -> exists x y p, cr_id r = Some (IdXY x y p) /\ 0 <= x - ox < 2 ^ xb /\ 0 <= y - oy < 2 ^ yb).
+Proof. intros sp c ri xb yb ab ox oy Hr Hx. apply xy_coordinates_fit with (ab := ab). eapply gri_xy; eauto. Qed.
+Print Assumptions C07_model_xy.
+
+Example C07_nonvacuous :
+  match (do g <- build (ex_star ID); do c <- compile (ex_star ID) g; Ok c) with
+  | Ok c => list_eqb Z.eqb (map cn_uid (c_nis c)) [0; 1; 2; 3]
+  | Err _ => false
+  end = true.
+Proof. vm_compute. reflexivity. Qed.
